@@ -131,34 +131,59 @@ Theorem dry_run_commands_no_effect : forall e ao v pl,
 Proof. exact dry_run_commands_no_effect_lemma. Qed.
 Print Assumptions dry_run_commands_no_effect.
 
-(* Stored vs. in-memory configuration.  apply_config that ENABLES append-only, with a storage fault
-   at any of its config writes (order of set_config / save_config and of the cold / hot write
-   regenerated from commands/config.rs): whenever the stored cold config ends up append-only, the
-   handle that ran the command holds an append-only config too ... *)
+(* Stored vs. in-memory configuration.  The guards read the config the handle holds in memory; the
+   property is about the stored one.  apply_config with a storage fault at ANY of its config writes
+   (nothing stored / first stored then failure / stored but error reported), in BOTH directions of the
+   change - the order of set_config and save_config, the failure branch, and the order of the cold and
+   hot write are regenerated from commands/config.rs: a handle that was at least as restrictive as
+   the stored cold config before the command is so afterwards. *)
+Theorem handle_never_less_restrictive : forall f new_ao s,
+  handle_covers_store s ->
+  handle_covers_store (config_step config_set_before_save config_restricts_on_failure config_cold_before_hot f new_ao s).
+Proof. exact handle_never_less_restrictive_lemma. Qed.
+Print Assumptions handle_never_less_restrictive.
+
+(* enabling needs no premise at all *)
 Theorem failed_enable_handle_tracks_store : forall f s,
-  let s' := config_step config_set_before_save config_cold_before_hot f true s in
+  let s' := config_step config_set_before_save config_restricts_on_failure config_cold_before_hot f true s in
   c_cold s' = true -> c_handle s' = true.
 Proof. exact failed_enable_handle_tracks_store_lemma. Qed.
 Print Assumptions failed_enable_handle_tracks_store.
 
-(* ... and therefore keeps refusing every guarded entry point, before any effect. *)
-Theorem failed_enable_still_refuses : forall f s e v pl g,
-  let s' := config_step config_set_before_save config_cold_before_hot f true s in
+(* hence: whenever the stored cold config is append-only after the (possibly failed) command, the
+   handle refuses every guarded entry point before any effect *)
+Theorem stored_append_only_still_refused : forall f new_ao s e v pl g,
+  handle_covers_store s ->
+  let s' := config_step config_set_before_save config_restricts_on_failure config_cold_before_hot f new_ao s in
   c_cold s' = true -> is_hotcold e = false ->
   f_guard (entry_facts e) = Some g -> forallb (holds v) g = true ->
   run_entry (entry_facts e) (c_handle s') v pl = (Refused, []).
-Proof. exact failed_enable_still_refuses_lemma. Qed.
-Print Assumptions failed_enable_still_refuses.
+Proof. exact stored_append_only_still_refused_lemma. Qed.
+Print Assumptions stored_append_only_still_refused.
 
-(* Full strength would be: for every change, stored append-only implies handle append-only.
-     forall f new s, c_handle s = c_cold s -> c_cold (config_step .. f new s) = true -> c_handle (..) = true
-   This is refuted by the code as it is (set_config before save_config): DISABLING append-only with
-   a fault at the first write leaves the store append-only and the handle not (known finding
-   config-disable-failed-handle-unlocked, replayed on the real code by the check). *)
-Theorem failed_disable_unlocks_handle_refuted :
-  config_set_before_save = true ->
+(* the shape before the repair (failed save leaves the handle with the new config) broke the
+   invariant when disabling - fixed finding config-disable-failed-handle-unlocked *)
+Theorem old_shape_unlocks_handle_refuted :
   exists f s, c_handle s = c_cold s /\ c_hot s = c_cold s /\
-    let s' := config_step config_set_before_save config_cold_before_hot f false s in
+    let s' := config_step true false config_cold_before_hot f false s in
     c_cold s' = true /\ c_handle s' = false.
-Proof. exact failed_disable_unlocks_handle_refuted_lemma. Qed.
-Print Assumptions failed_disable_unlocks_handle_refuted.
+Proof. exact old_shape_unlocks_handle_refuted_lemma. Qed.
+Print Assumptions old_shape_unlocks_handle_refuted.
+
+(* The Indexer (index/indexer.rs; MAX_COUNT, the shape of save / finalize / add_with regenerated from
+   the source): however often finalize is called, no index file is written unless a pack was added. *)
+Theorem indexer_silent_without_add : forall evs,
+  forallb is_finalize evs = true ->
+  ix_run indexer_save_needs_packs indexer_max_count (mk_ix 0 0) evs = 0%N.
+Proof. exact indexer_silent_without_add_lemma. Qed.
+Print Assumptions indexer_silent_without_add.
+
+(* Dry-run, derived: with the flag set no sink site of the entry's table runs, so the indexer sees
+   no add, so the finalize calls the entry makes (however many, guarded or not - repair_index and
+   prune call it unconditionally) write nothing. *)
+Theorem dry_run_indexer_silent : forall e v pl k,
+  has_dry e = true -> v F_dry_run = true ->
+  ix_run indexer_save_needs_packs indexer_max_count (mk_ix 0 0)
+    (ix_events v (f_pre (entry_facts e) ++ f_post (entry_facts e)) pl ++ repeat IxFinalize k) = 0%N.
+Proof. exact dry_run_indexer_silent_lemma. Qed.
+Print Assumptions dry_run_indexer_silent.
